@@ -85,6 +85,25 @@ Proof.
          repeat match goal with |- context [if ?c then _ else _] => destruct c end; simpl; exact I).
 Qed.
 
+Lemma str1_ok o t t' v : ty_str1 o t = Some t' -> has_ty v t ->
+  match eval_str1 o v with OV v' => has_ty v' t' | OF _ => True | OStuck => False end.
+Proof.
+  destruct o, t; simpl; try discriminate; intros E; injection E as <-; destruct v; simpl; try contradiction; intros _; exact I.
+Qed.
+Lemma str2_ok o ta tb t va vb : ty_str2 o ta tb = Some t -> has_ty va ta -> has_ty vb tb ->
+  match eval_str2 o va vb with OV v => has_ty v t | OF _ => True | OStuck => False end.
+Proof.
+  destruct o, ta, tb; simpl; try discriminate; intros E; injection E as <-;
+    destruct va, vb; simpl; try contradiction; intros _ _; try exact I;
+    try (destruct (concat_v s s0); exact I).
+  destruct (char_at_v s z); exact I.
+Qed.
+Lemma substr_ok va vb vc : has_ty va TStr -> has_ty vb TInt -> has_ty vc TInt ->
+  match eval_substr va vb vc with OV v => has_ty v TStr | OF _ => True | OStuck => False end.
+Proof.
+  destruct va, vb, vc; simpl; try contradiction. intros _ _ _. destruct (substr_v s z z0); exact I.
+Qed.
+
 (* ------------------------------------------------------------------ results *)
 Definition good {A} (Q : A -> Prop) (r : res A) : Prop :=
   match r with Stuck => False | Ok a _ => Q a | _ => True end.
@@ -392,6 +411,24 @@ Proof.
     destruct ta; try discriminate. injection Ht as <-.
     eapply good_bind; [apply (IHe _ _ _ _ out He Ea)|]. intros va o1 _ Hva.
     destruct (arr_inv _ Hva) as [l ->]. exact I.
+  - (* unary string builtin *)
+    simpl in Ht. destruct (ty_expr F G L e) as [ta|] eqn:Ea; [|discriminate].
+    eapply good_bind; [apply (IHe _ _ _ _ out He Ea)|]. intros v o1 _ Hv.
+    pose proof (str1_ok _ _ _ _ Ht Hv) as Hb. destruct (eval_str1 o v); simpl; auto.
+  - (* binary string builtin *)
+    simpl in Ht. destruct (ty_expr F G L e1) as [ta|] eqn:Ea; [|discriminate].
+    destruct (ty_expr F G L e2) as [tb|] eqn:Eb; [|discriminate].
+    eapply good_bind; [apply (IHe _ _ _ _ out He Ea)|]. intros va o1 _ Hva.
+    eapply good_bind; [apply (IHe _ _ _ _ o1 He Eb)|]. intros vb o2 _ Hvb.
+    pose proof (str2_ok _ _ _ _ _ _ Ht Hva Hvb) as Hb. destruct (eval_str2 o va vb); simpl; auto.
+  - (* str_substring *)
+    simpl in Ht. destruct (ty_expr F G L e1) as [ta|] eqn:Ea; [|discriminate]. destruct ta; try discriminate.
+    destruct (ty_expr F G L e2) as [tb|] eqn:Eb; [|discriminate]. destruct tb; try discriminate.
+    destruct (ty_expr F G L e3) as [tc|] eqn:Ec; [|discriminate]. destruct tc; try discriminate. injection Ht as <-.
+    eapply good_bind; [apply (IHe _ _ _ _ out He Ea)|]. intros va o1 _ Hva.
+    eapply good_bind; [apply (IHe _ _ _ _ o1 He Eb)|]. intros vb o2 _ Hvb.
+    eapply good_bind; [apply (IHe _ _ _ _ o2 He Ec)|]. intros vc o3 _ Hvc.
+    pose proof (substr_ok _ _ _ Hva Hvb Hvc) as Hb. destruct (eval_substr va vb vc); simpl; auto.
 Qed.
 
 (* re-base the suffix part of a statement's post-condition on an outer scope *)
